@@ -137,7 +137,7 @@ open Gen.Avx512 Gen.VecConsts Lane Avx512
 
 -- the lane-wise intrinsics of `Isa/Avx512.lean`, the masked operations / compares read at one lane and the
 -- register constants join the closed `lane_get` set
-attribute [lane_get] Avx512.add_epi64 Avx512.sub_epi64 Avx512.and_si512 Avx512.xor_si512 Avx512.or_si512
+attribute [lane_get] Avx512.mask_mov_epi32 Avx512.add_epi64 Avx512.sub_epi64 Avx512.and_si512 Avx512.xor_si512 Avx512.or_si512
   Avx512.andnot_si512 Avx512.srli_epi64 Avx512.slli_epi64 Avx512.mul_epu32 Avx512.movehdup_ps Avx512.moveldup_ps
   V8.get_map V8.get_map2 V8.get_splat Avx512.get_set_same Avx512.get_set1 Avx512.get_set4_same Avx512.get_blend_aaaa
   Avx512.get_mask_add Avx512.get_mask_sub Avx512.sel_ucmp_lt Avx512.sel_ucmp_le Avx512.sel_ucmp_ge Avx512.sel_ucmp_gt
